@@ -150,6 +150,44 @@ def check_state(h, v, acc):
             bad.append(('find-ansistr', {'hist': h, 'op': ['find_str', S]}, 'AnsiStr.find_settings differs'))
         else:
             acc.validated += 1
+    # a receiver that has been searched, is then edited in place, and is searched again: the answers are judged against the
+    # cells of a twin that was edited without having been asked anything before
+    from ..hist import apply_op
+    for edit in (['ljust', L + 2, '*', True, True], ['center', L + 3, '*', True, True], ['rjust', L + 1, '*', True, False],
+                 ['assign', text + 'Q'], ['icat', ['lit', 'z']], ['clip', 1, None, True]):
+        case = {'hist': h, 'op': ['find_after', edit]}
+        acc.transitions += 1
+        try:
+            w0 = apply_op(build(h), edit)
+            text0, cells0 = model.alpha_codes(w0)
+            w = build(h)
+            for S in menu(acc.seed)[:3]:
+                w.find_settings(mk_settings(S))
+                w.find_settings(mk_settings(S), reverse=True)
+            if L:
+                w.settings_at(0)
+                w.ansi_settings_at(L - 1)
+            w = apply_op(w, edit)
+        except Exception as ex:  # noqa
+            continue            # (what the edit itself may raise is C09's and the edit's own property's business)
+        T0 = [set(c) for c in cells0]
+        ok = True
+        for S in menu(acc.seed)[:3]:
+            for rev in (False, True):
+                for (i, j) in ((None, None), (1, None), (0, len(text0))):
+                    try:
+                        res = w.find_settings(mk_settings(S), reverse=rev) if i is None else w.find_settings(mk_settings(S), i, j, rev)
+                    except Exception as e:  # noqa
+                        bad.append(('find-raises', case, 'after %r: find_settings(%r,%r,%r,%r) raised %s: %s' % (edit, S, i, j, rev, type(e).__name__, e)))
+                        ok = False
+                        continue
+                    err = check_find(w, T0, len(text0), S, i, j, rev, res)
+                    if err:
+                        bad.append((err[0], case, 'searched, then %r, then find_settings(%r,%r,%r,reverse=%r) = %r on cells %r: %s'
+                                    % (edit, S, i, j, rev, res, cells0, err[1])))
+                        ok = False
+        if ok:
+            acc.validated += 1
     return bad
 
 
